@@ -17,6 +17,7 @@ import (
 	"errors"
 	"fmt"
 	"runtime"
+	"runtime/debug"
 	"sort"
 	"strconv"
 	"strings"
@@ -266,6 +267,32 @@ func parseScen(line string) (*scen, string) {
 
 var shardCount = loom.NewSharding().GetShardingCount()
 
+// collect runs a garbage collection (so that the finalisers of dropped caches stop their tickers and workers) and
+// waits until the finaliser goroutine is idle again. Observed in this sandbox: with the fake clock and GOMAXPROCS > 1 a
+// collection can hang inside the runtime (gcMarkTermination / forEachP). Therefore collections only ever happen with
+// one P: the automatic collector is switched off while GOMAXPROCS > 1 (setProcs) and collect() drops to one P.
+func collect() {
+	n := runtime.GOMAXPROCS(0)
+	if n > 1 {
+		runtime.GOMAXPROCS(1)
+	}
+	runtime.GC()
+	time.Sleep(1)
+	if n > 1 {
+		runtime.GOMAXPROCS(n)
+	}
+}
+
+func setProcs(n int) {
+	if n > 1 {
+		debug.SetGCPercent(-1)
+	}
+	runtime.GOMAXPROCS(n)
+	if n <= 1 {
+		debug.SetGCPercent(100)
+	}
+}
+
 // LeakedGoroutines is reported in the statistics (worker goroutines of finalised caches must disappear).
 var scenariosRun int
 
@@ -413,8 +440,7 @@ func runScenario(line string) string {
 	}
 	// let the finaliser stop the ticker and the workers of this cache
 	cache = nil
-	runtime.GC()
-	time.Sleep(1)
+	collect()
 	return strings.Join(out, " | ")
 }
 
@@ -457,11 +483,14 @@ func runStress(w []string) string {
 			rounds, _ = strconv.Atoi(a[7:])
 		}
 	}
+	if g > 3 {
+		g = 3 // at most 4 Ps under the fake clock
+	}
 	old := runtime.GOMAXPROCS(0)
 	if g+1 > old {
-		runtime.GOMAXPROCS(g + 1)
+		setProcs(g + 1)
 	}
-	defer runtime.GOMAXPROCS(old)
+	defer setProcs(old)
 	dup := 0
 	for r := 0; r < rounds; r++ {
 		cache := cachex.NewCache(cachex.WithParallel(2), cachex.WithJobChanSize(64))
@@ -507,13 +536,11 @@ func runStress(w []string) string {
 			dup++
 		}
 		cache = nil
-		if r%16 == 15 {
-			runtime.GC()
-			time.Sleep(1)
+		if r%64 == 63 {
+			collect()
 		}
 	}
-	runtime.GC()
-	time.Sleep(1)
+	collect()
 	return fmt.Sprintf("dup %d", dup)
 }
 
